@@ -125,3 +125,14 @@ M('c03-asgi-prepare-drops-mode', 'C03', 'R6', 'falcon/asgi/app.py',
             independent_middleware=independent_middleware,
             asgi=True,""", """            middleware=middleware,
             asgi=True,""")
+
+M('c03-class-hook-own-namespace-only', 'C03', 'R7', 'falcon/hooks.py',
+  """            for responder_name, responder in getmembers(
+                responder_or_resource, callable
+            ):
+                if _DECORABLE_METHOD_NAME.match(responder_name):
+                    responder = cast('Responder', responder)
+                    do_before_all""", """            for responder_name, responder in list(vars(responder_or_resource).items()):
+                if callable(responder) and _DECORABLE_METHOD_NAME.match(responder_name):
+                    responder = cast('Responder', responder)
+                    do_before_all""")
